@@ -13,10 +13,33 @@
 From KV Require Import base.Tac pubd.Objects pubd.ObjectsProofs pubd.Fs pubd.FsProofs pubd.Rsync.
 Open Scope N_scope.
 
-Lemma ops_split v f base serial o :
-  rsync_write_ops_v v f base serial o
-  = files_phase base serial o ++ switch_phase v (fs_exists current_dir f) (fs_exists old_dir f) serial.
+Lemma ops_split v tm f base serial o :
+  rsync_write_ops_v v tm f base serial o
+  = clean_phase tm f serial ++ files_phase base serial o ++ switch_phase v (fs_exists current_dir f) (fs_exists old_dir f) serial.
 Proof. unfold rsync_write_ops_v, files_phase, switch_phase. rewrite <- !app_assoc. reflexivity. Qed.
+
+Lemma remove_tree_inv' p f f' : remove_tree p f = Some f' -> f' = remove_under p f.
+Proof. unfold remove_tree. destruct p; [discriminate|]. destruct (fs_is_dir _ f); [|discriminate]. intros H; inv H. reflexivity. Qed.
+
+(** The removal of a stale temporary directory: nothing is left below it, everything else stays. *)
+Lemma clean_phase_run tm f serial f0 ok :
+  run (clean_phase tm f serial) f = (f0, ok) ->
+  (forall q, q <> [] -> under (tmp_dir serial) q = false -> fs_get q f0 = fs_get q f)
+  /\ (ok = true -> tm = FreshTmp -> fs_exists (tmp_dir serial) f = true -> forall rel, fs_get (tmp_dir serial ++ rel) f0 = None)
+  /\ (fs_exists (tmp_dir serial) f = false \/ tm = KeepTmp -> f0 = f /\ ok = true).
+Proof.
+  unfold clean_phase. intros H. destruct tm.
+  - rewrite run_nil in H. inv H. split; [auto|]. split; [discriminate|auto].
+  - destruct (fs_exists (tmp_dir serial) f) eqn:E.
+    + rewrite run_cons, exec_remove_tree in H. cbn [best_effort] in H.
+      destruct (remove_tree (tmp_dir serial) f) as [g|] eqn:Er.
+      * rewrite run_nil in H. inv H. apply remove_tree_inv' in Er. subst f0.
+        split; [intros q Hq Hu; rewrite get_remove_under by exact Hq; rewrite Hu; reflexivity|].
+        split; [intros _ _ _ rel; rewrite get_remove_under by discriminate; rewrite under_app; reflexivity|].
+        intros [Hx|Hx]; discriminate.
+      * inv H. split; [auto|]. split; [discriminate|]. intros [Hx|Hx]; discriminate.
+    + rewrite run_nil in H. inv H. split; [auto|]. split; [discriminate|auto].
+Qed.
 
 Lemma run_ok_cons o rest f f' : run (o :: rest) f = (f', true) -> best_effort o = false ->
   exists f1, exec o f = Some f1 /\ run rest f1 = (f', true).
@@ -175,9 +198,6 @@ Proof.
   - destruct (cur || old); [destruct H as [<-|[]]; auto|destruct H].
 Qed.
 
-Lemma remove_tree_inv' p f f' : remove_tree p f = Some f' -> f' = remove_under p f.
-Proof. unfold remove_tree. destruct p; [discriminate|]. destruct (fs_is_dir _ f); [|discriminate]. intros H; inv H. reflexivity. Qed.
-
 Lemma rename_dir_onto_nothing s d f : s <> [] -> d <> [] -> fs_get s f = Some Dir -> fs_get d f = None -> under s d = false ->
   rename s d f = Some (map (rekey s d) (remove_under d f)).
 Proof.
@@ -253,27 +273,43 @@ Proof.
 Qed.
 
 (** A crash anywhere in a write leaves rsync/current and rsync/old directories (or absent). *)
-Lemma cut_shape v f base serial o f1 :
-  Shape f -> reach (rsync_write_ops_v v f base serial o) f f1 -> Shape f1.
+Lemma cut_shape v tm f base serial o f1 :
+  Shape f -> reach (rsync_write_ops_v v tm f base serial o) f f1 -> Shape f1.
 Proof.
-  intros Hs Hr. rewrite ops_split in Hr. apply reach_app in Hr. destruct Hr as [Hr|[Hok Hr]].
-  - revert Hr. apply reach_inv; [|exact Hs].
-    intros op g g' Hin [Hc Ho] He.
-    assert (Fr : forall q, under q (tmp_dir serial) = false -> under (tmp_dir serial) q = false -> fs_get q g' = fs_get q g).
-    { intros q Hq1 Hq2. unfold files_phase in Hin. destruct Hin as [<-|Hin].
-      - rewrite exec_mkdir in He. eapply mkdir_all_frame; eassumption.
-      - destruct (in_file_ops _ _ _ _ Hin) as [->|[p [c [Hk [Hu Hp]]]]]; [rewrite exec_fail in He; discriminate|].
-        eapply save_frame_get; try eassumption; [apply Hp; discriminate|].
-        destruct (under q p) eqn:E; [|reflexivity]. apply under_spec in Hu. destruct Hu as [z ->].
-        apply under_prefix_cases in E. destruct E; congruence. }
-    split; rewrite Fr by reflexivity; assumption.
-  - destruct (run (files_phase base serial o) f) as [f2 ok] eqn:Ef. simpl in Hok, Hr. subst ok.
-    destruct (files_phase_run _ _ _ _ _ Ef) as [Ht [Fr _]].
-    assert (S2 : SwitchInv serial f2).
-    { split; [|left; exact Ht]. destruct Hs as [Hc Ho]. split; rewrite Fr by reflexivity; assumption. }
-    assert (S1 : SwitchInv serial f1).
-    { revert Hr. apply reach_inv; [|exact S2]. intros op g g' Hin Hg He. eapply switch_step; try eassumption. eapply in_switch; eassumption. }
-    apply S1.
+  intros Hs Hr. rewrite ops_split in Hr.
+  assert (Files : forall g g1, Shape g ->
+            reach (files_phase base serial o ++ switch_phase v (fs_exists current_dir f) (fs_exists old_dir f) serial) g g1 -> Shape g1).
+  { clear Hr Hs f1. intros f0 f1 Hs Hr. apply reach_app in Hr. destruct Hr as [Hr|[Hok Hr]].
+    - revert Hr. apply reach_inv; [|exact Hs].
+      intros op g g' Hin [Hc Ho] He.
+      assert (Fr : forall q, under q (tmp_dir serial) = false -> under (tmp_dir serial) q = false -> fs_get q g' = fs_get q g).
+      { intros q Hq1 Hq2. unfold files_phase in Hin. destruct Hin as [<-|Hin].
+        - rewrite exec_mkdir in He. eapply mkdir_all_frame; eassumption.
+        - destruct (in_file_ops _ _ _ _ Hin) as [->|[p [c [Hk [Hu Hp]]]]]; [rewrite exec_fail in He; discriminate|].
+          eapply save_frame_get; try eassumption; [apply Hp; discriminate|].
+          destruct (under q p) eqn:E; [|reflexivity]. apply under_spec in Hu. destruct Hu as [z ->].
+          apply under_prefix_cases in E. destruct E; congruence. }
+      split; rewrite Fr by reflexivity; assumption.
+    - destruct (run (files_phase base serial o) f0) as [f2 ok] eqn:Ef. simpl in Hok, Hr. subst ok.
+      destruct (files_phase_run _ _ _ _ _ Ef) as [Ht [Fr _]].
+      assert (S2 : SwitchInv serial f2).
+      { split; [|left; exact Ht]. destruct Hs as [Hc Ho]. split; rewrite Fr by reflexivity; assumption. }
+      assert (S1 : SwitchInv serial f1).
+      { revert Hr. apply reach_inv; [|exact S2]. intros op g g' Hin Hg He. eapply switch_step; try eassumption. eapply in_switch; eassumption. }
+      apply S1. }
+  apply reach_app in Hr. destruct Hr as [Hr|[Hok Hr]].
+  - (* within the removal of the stale temporary directory *)
+    destruct Hr as [n ->]. destruct (run (firstn n (clean_phase tm f serial)) f) as [g okg] eqn:Eg. cbn [fst].
+    assert (G : forall q, q <> [] -> under (tmp_dir serial) q = false -> fs_get q g = fs_get q f).
+    { destruct n as [|n]; [rewrite firstn_O, run_nil in Eg; inv Eg; auto|].
+      assert (En : firstn (S n) (clean_phase tm f serial) = clean_phase tm f serial).
+      { unfold clean_phase. destruct tm; [reflexivity|]. destruct (fs_exists (tmp_dir serial) f); [|reflexivity]. cbn [firstn]. rewrite firstn_nil. reflexivity. }
+      rewrite En in Eg. apply (clean_phase_run _ _ _ _ _ Eg). }
+    destruct Hs as [Hc Ho]. split; rewrite G by (try discriminate; reflexivity); assumption.
+  - destruct (run (clean_phase tm f serial) f) as [g okg] eqn:Eg. cbn [fst snd] in Hok, Hr.
+    apply (Files g f1); [|exact Hr].
+    destruct (clean_phase_run _ _ _ _ _ Eg) as [G _].
+    destruct Hs as [Hc Ho]. split; rewrite G by (try discriminate; reflexivity); assumption.
 Qed.
 
 (** The repaired switch completes whenever current and old are directories or absent and the
@@ -314,17 +350,21 @@ Proof.
     rewrite run_cons, E3. reflexivity.
 Qed.
 
-(** [rsync_recovers_after_cut]: with the repaired procedure an interrupted write never prevents
-    later writes. *)
-Theorem rsync_recovers_after_cut : rsync_never_stuck Repaired.
+(** [rsync_recovers_after_cut]: with the repaired switch an interrupted write never prevents
+    later writes (whether or not a stale temporary directory is removed first). *)
+Theorem rsync_recovers_after_cut tm : rsync_never_stuck Repaired tm.
 Proof.
   intros f base serial o n serial' o' Hs f1 Hfiles.
   assert (S1 : Shape f1) by (eapply cut_shape; [exact Hs|exists n; reflexivity]).
-  rewrite ops_split, run_app. rewrite Hfiles.
-  destruct (run (files_phase base serial' o') f1) as [f2 ok] eqn:Ef. simpl in Hfiles. subst ok. cbn [fst].
+  rewrite ops_split. rewrite app_assoc, run_app. rewrite Hfiles.
+  rewrite run_app in Hfiles |- *.
+  destruct (run (clean_phase tm f1 serial') f1) as [f0 ok0] eqn:Ec0. cbn [fst snd] in Hfiles |- *.
+  destruct ok0; [|discriminate].
+  destruct (clean_phase_run _ _ _ _ _ Ec0) as [G0 _].
+  destruct (run (files_phase base serial' o') f0) as [f2 ok] eqn:Ef. simpl in Hfiles. subst ok. cbn [fst].
   destruct (files_phase_run _ _ _ _ _ Ef) as [Ht [Fr _]].
-  assert (Ec : fs_get current_dir f2 = fs_get current_dir f1) by (apply Fr; reflexivity).
-  assert (Eo : fs_get old_dir f2 = fs_get old_dir f1) by (apply Fr; reflexivity).
+  assert (Ec : fs_get current_dir f2 = fs_get current_dir f1) by (rewrite Fr by reflexivity; apply G0; [discriminate|reflexivity]).
+  assert (Eo : fs_get old_dir f2 = fs_get old_dir f1) by (rewrite Fr by reflexivity; apply G0; [discriminate|reflexivity]).
   replace (fs_exists current_dir f1) with (fs_exists current_dir f2) by (unfold fs_exists; rewrite Ec; reflexivity).
   replace (fs_exists old_dir f1) with (fs_exists old_dir f2) by (unfold fs_exists; rewrite Eo; reflexivity).
   apply repaired_switch_ok; [|exact Ht].
@@ -365,25 +405,52 @@ Proof.
   - rewrite run_nil in H2. inv H2. reflexivity.
 Qed.
 
-(** [rsync_equals_snapshot_after_success]: after a successful write the files under
-    rsync/current are exactly the objects of the snapshot, each at the path of its URI relative to
-    the base URI - for both procedures, provided no earlier attempt left anything in
-    rsync/tmp-<serial>, different objects go to different files, and all are inside the base. *)
-Theorem rsync_equals_snapshot_after_success v f base serial o f' :
-  tmp_clean serial f = true -> RelInjective base o -> NoDupO o ->
-  run (rsync_write_ops_v v f base serial o) f = (f', true) ->
+(** From a tree with nothing below rsync/tmp-<serial>: filling it and switching gives exactly the
+    snapshot. *)
+Lemma fill_and_switch_result v cur old base serial o f0 f' :
+  (forall rel, fs_get (tmp_dir serial ++ rel) f0 = None) -> RelInjective base o -> NoDupO o ->
+  run (files_phase base serial o ++ switch_phase v cur old serial) f0 = (f', true) ->
   forall rel c, fs_file (current_dir ++ rel) f' = Some c <->
                 exists k ob, In (k, ob) o /\ rel_of base k = Some rel /\ c = CData (DObj (o_content ob)).
 Proof.
-  intros Hclean Hi Hn H rel c. rewrite ops_split, run_app in H.
-  destruct (run (files_phase base serial o) f) as [f2 ok] eqn:Ef. cbn [fst snd] in H. destruct ok; [|discriminate].
+  intros Hclean Hi Hn H rel c. rewrite run_app in H.
+  destruct (run (files_phase base serial o) f0) as [f2 ok] eqn:Ef. cbn [fst snd] in H. destruct ok; [|discriminate].
   destruct (files_phase_run _ _ _ _ _ Ef) as [_ [_ Fc]].
   unfold fs_file at 1. rewrite (switch_moves_tmp _ _ _ _ _ _ H rel). fold (fs_file (tmp_dir serial ++ rel) f2).
-  rewrite Fc. unfold fs_file at 1. rewrite (tmp_clean_none _ _ _ Hclean).
+  rewrite Fc. unfold fs_file at 1. rewrite Hclean.
   split.
   - destruct (written base o rel) as [c0|] eqn:Ew; [|discriminate]. intros Hc; inv Hc.
     destruct (written_some _ _ _ _ Ew) as [k [ob [H1 [H2 ->]]]]. exists k, ob. auto.
   - intros [k [ob [H1 [H2 ->]]]]. rewrite (written_complete _ _ _ _ _ Hi Hn H1 H2). reflexivity.
+Qed.
+
+(** [rsync_equals_snapshot_after_success]: after a successful write the files under
+    rsync/current are exactly the objects of the snapshot, each at the path of its URI relative to
+    the base URI - whatever an earlier attempt for the same serial left in rsync/tmp-<serial>
+    (code of record, both switch procedures), provided different objects go to different files.
+    [tmp_wf]: the tree is a tree (a directory that does not exist has nothing below it). *)
+Theorem rsync_equals_snapshot_after_success v : rsync_equals_snapshot_unconditional v FreshTmp.
+Proof.
+  intros f base serial o f' Hwf _ Hi Hn H. rewrite ops_split, run_app in H.
+  destruct (run (clean_phase FreshTmp f serial) f) as [f0 ok0] eqn:Ec0. cbn [fst snd] in H. destruct ok0; [|discriminate].
+  destruct (clean_phase_run _ _ _ _ _ Ec0) as [_ [G1 G2]].
+  apply (fill_and_switch_result v (fs_exists current_dir f) (fs_exists old_dir f) base serial o f0 f'); try assumption.
+  destruct (fs_exists (tmp_dir serial) f) eqn:E.
+  - apply G1; reflexivity.
+  - destruct (G2 (or_introl eq_refl)) as [-> _]. intros rel. apply tmp_clean_none.
+    unfold tmp_wf in Hwf. rewrite E in Hwf. exact Hwf.
+Qed.
+
+(** Before e2447e97 the same needed an untouched temporary directory. *)
+Theorem rsync_equals_snapshot_keep_tmp v f base serial o f' :
+  tmp_clean serial f = true -> RelInjective base o -> NoDupO o ->
+  run (rsync_write_ops_v v KeepTmp f base serial o) f = (f', true) ->
+  forall rel c, fs_file (current_dir ++ rel) f' = Some c <->
+                exists k ob, In (k, ob) o /\ rel_of base k = Some rel /\ c = CData (DObj (o_content ob)).
+Proof.
+  intros Hclean Hi Hn H. rewrite ops_split in H. cbn [clean_phase app] in H.
+  apply (fill_and_switch_result v (fs_exists current_dir f) (fs_exists old_dir f) base serial o f f'); try assumption.
+  intros rel. apply tmp_clean_none. exact Hclean.
 Qed.
 
 (** ** Witnesses *)
@@ -398,42 +465,42 @@ Definition x_objs2 : objects := [(x_uri 1, (13, 13))].
 
 (** F11c: the pinned procedure, cut after the second rename (6 operations done, the removal of
     rsync/old pending): the next write fails, and so does the one after it. *)
-Theorem rsync_interrupted_then_stuck : ~ rsync_never_stuck Pinned.
+Theorem rsync_interrupted_then_stuck : ~ rsync_never_stuck Pinned KeepTmp.
 Proof.
   intros H. specialize (H x_fs0 x_base 5 x_objs1 6%nat 6 x_objs2).
   assert (S : Shape x_fs0) by (split; [right|left]; reflexivity).
   specialize (H S). cbv zeta in H. vm_compute in H. specialize (H eq_refl). discriminate.
 Qed.
 Example rsync_stays_stuck :
-  let f1 := fst (run (firstn 6 (rsync_write_ops_v Pinned x_fs0 x_base 5 x_objs1)) x_fs0) in
-  let f2 := fst (run (rsync_write_ops_v Pinned f1 x_base 6 x_objs2) f1) in
-  snd (run (rsync_write_ops_v Pinned f1 x_base 6 x_objs2) f1) = false
-  /\ snd (run (rsync_write_ops_v Pinned f2 x_base 7 x_objs2) f2) = false
-  /\ snd (run (rsync_write_ops_v Repaired f2 x_base 7 x_objs2) f2) = true.
+  let f1 := fst (run (firstn 6 (rsync_write_ops_v Pinned KeepTmp x_fs0 x_base 5 x_objs1)) x_fs0) in
+  let f2 := fst (run (rsync_write_ops_v Pinned KeepTmp f1 x_base 6 x_objs2) f1) in
+  snd (run (rsync_write_ops_v Pinned KeepTmp f1 x_base 6 x_objs2) f1) = false
+  /\ snd (run (rsync_write_ops_v Pinned KeepTmp f2 x_base 7 x_objs2) f2) = false
+  /\ snd (run (rsync_write_ops_v Repaired FreshTmp f2 x_base 7 x_objs2) f2) = true.
 Proof. vm_compute. repeat split. Qed.
 Example rsync_recovers_after_cut_nonvacuous :
-  Shape x_fs0 /\ snd (run (files_phase x_base 6 x_objs2)
-                        (fst (run (firstn 6 (rsync_write_ops_v Repaired x_fs0 x_base 5 x_objs1)) x_fs0))) = true.
+  Shape x_fs0 /\ snd (run (clean_phase FreshTmp (fst (run (firstn 6 (rsync_write_ops_v Repaired FreshTmp x_fs0 x_base 5 x_objs1)) x_fs0)) 6 ++ files_phase x_base 6 x_objs2)
+                        (fst (run (firstn 6 (rsync_write_ops_v Repaired FreshTmp x_fs0 x_base 5 x_objs1)) x_fs0))) = true.
 Proof. split; [split; [right|left]; reflexivity|vm_compute; reflexivity]. Qed.
 
-(** Candidate F11f: what an earlier attempt for the same serial left in rsync/tmp-<serial> ends
-    up in rsync/current. *)
+(** F11f (fixed by e2447e97), about the procedure before the fix: what an earlier attempt for the
+    same serial left in rsync/tmp-<serial> ends up in rsync/current. *)
 Definition x_fs_stale : fs := ([NRsync; NTmp 5], Dir) :: ([NRsync; NTmp 5; NSeg 9], File (CData (DObj 99))) :: x_fs0.
-Theorem rsync_equals_snapshot_unconditional_refuted v : ~ rsync_equals_snapshot_unconditional v.
+Theorem rsync_equals_snapshot_unconditional_refuted v : ~ rsync_equals_snapshot_unconditional v KeepTmp.
 Proof.
   intros H.
-  destruct (run (rsync_write_ops_v v x_fs_stale x_base 5 x_objs1) x_fs_stale) as [f' ok] eqn:E.
+  destruct (run (rsync_write_ops_v v KeepTmp x_fs_stale x_base 5 x_objs1) x_fs_stale) as [f' ok] eqn:E.
   assert (Hok : ok = true) by (destruct v; vm_compute in E; inv E; reflexivity). subst ok.
   assert (A : AllInside x_base x_objs1) by (intros k [<-|[]]; discriminate).
   assert (I : RelInjective x_base x_objs1) by (intros k k' rel [<-|[]] [<-|[]] _ _; reflexivity).
   assert (Nd : NoDupO x_objs1) by (repeat constructor; intros []).
-  specialize (H x_fs_stale x_base 5 x_objs1 f' A I Nd E [NSeg 9] (CData (DObj 99))).
+  specialize (H x_fs_stale x_base 5 x_objs1 f' eq_refl A I Nd E [NSeg 9] (CData (DObj 99))).
   assert (L : fs_file (current_dir ++ [NSeg 9]) f' = Some (CData (DObj 99))) by (destruct v; vm_compute in E; inv E; reflexivity).
   apply H in L. destruct L as [k [ob [[Hin|[]] [Hr _]]]]. inv Hin. vm_compute in Hr. discriminate.
 Qed.
 Example rsync_equals_snapshot_nonvacuous :
-  tmp_clean 5 x_fs0 = true /\ RelInjective x_base x_objs1 /\ NoDupO x_objs1
-  /\ snd (run (rsync_write_ops_v Repaired x_fs0 x_base 5 x_objs1) x_fs0) = true.
+  tmp_wf 5 x_fs_stale = true /\ RelInjective x_base x_objs1 /\ NoDupO x_objs1
+  /\ snd (run (rsync_write_ops_v Repaired FreshTmp x_fs_stale x_base 5 x_objs1) x_fs_stale) = true.
 Proof.
   split; [reflexivity|]. split; [intros k k' rel [<-|[]] [<-|[]] _ _; reflexivity|].
   split; [repeat constructor; intros []|vm_compute; reflexivity].
